@@ -4,7 +4,7 @@
    numbering, ANY order); `indices` is a slot table (RefXxx.facets / RefXxx.edges). *)
 From Coq Require Import List Arith ZArith Bool Sorted.
 Import ListNotations.
-Require Import Base.C11_Unique Model.C11_Topo Proofs.C11_TopoProofs Proofs.C11_EquivProofs Gen.C11Refdom Dyn.C11Tie.
+Require Import Base.Corr Base.C11_Unique Model.C11_Topo Proofs.C11_TopoProofs Proofs.C11_EquivProofs Gen.C11Refdom Dyn.C11Tie.
 
 (* each facet / edge appears once, as a sorted tuple, the array is in strictly increasing lexicographic order *)
 Theorem C11_entities_unique_sorted :
@@ -174,9 +174,7 @@ Qed.
 Print Assumptions C11_f2e_slotwise.
 
 (* ... and for tetrahedral meshes (tables regenerated from refdom.py) it always is: for EVERY list of cells with pairwise distinct
-   vertices, f2e[s][f] is the number IN mesh.edges of the s-th side of facet f.  (For hexahedra the same needs the two cells of a
-   facet to list its vertices in the same cyclic order — a geometric conformity assumption; there f2e is corresponded and
-   checked by the oracle.) *)
+   vertices, f2e[s][f] is the number IN mesh.edges of the s-th side of facet f.  (Hexahedra: next theorem.) *)
 Theorem C11_f2e_numbers_mesh_edges_tet :
   forall (cells : list (list nat)) (s f : nat),
     Forall (fun c => NoDup c /\ length c = tet_nnodes) cells ->
@@ -194,6 +192,41 @@ Proof.
   split; [exact E|]. intros Hs Hf. rewrite <- E. now apply t2f_slotwise.
 Qed.
 Print Assumptions C11_f2e_numbers_mesh_edges_tet.
+
+(* hexahedral meshes (unsorted cyclic facets, tables regenerated from refdom.py): IF every cell lists the four vertices of each of its
+   facets in the cyclic order of the stored facet column up to rotation / reversal (what conforming hexahedral meshes satisfy:
+   checked on every generated mesh by the oracle), THEN the edge array rebuilt from the facets IS mesh.edges, so f2e[s][f] is the
+   number in mesh.edges of side s of facet f *)
+Theorem C11_f2e_numbers_mesh_edges_hex :
+  forall (cells : list (list nat)) (s f : nat),
+    (forall s' e, s' < length hex_facets -> e < length cells ->
+       dihedral (nth (t2f_at cells hex_facets s' e) (entities hex_sortf cells hex_facets) [])
+                (slotv (nth s' hex_facets []) (nth e cells []))) ->
+    let facets := entities hex_sortf cells hex_facets in
+    entities true facets hex_bnd = entities true cells hex_edges /\
+    (s < length hex_bnd -> f < length facets ->
+     nth (nth f (nth s (mapping facets hex_bnd) []) 0) (entities true cells hex_edges) []
+       = sort_entity (slotv (nth s hex_bnd []) (nth f facets []))).
+Proof.
+  intros cells s f Hconf facets. unfold facets. revert Hconf. rewrite hex_unsorted_facets. intros Hconf.
+  assert (E : entities true (entities false cells hex_facets) hex_bnd = entities true cells hex_edges).
+  { apply f2e_numbers_mesh_edges_quad; [exact hex_bnd_cyclic | exact hex_compose_ok | exact Hconf]. }
+  split; [exact E|]. intros Hs Hf. rewrite <- E. now apply t2f_slotwise.
+Qed.
+Print Assumptions C11_f2e_numbers_mesh_edges_hex.
+
+(* the conformity hypothesis is satisfiable: two hexahedra sharing a facet, the second listing it rotated *)
+Example C11_hex_conformity_instance :
+  let cells := [[0; 1; 2; 3; 4; 5; 6; 7]; [8; 9; 10; 0; 11; 1; 2; 4]] in
+  forallb (fun s => forallb (fun e =>
+     let q := nth (t2f_at cells hex_facets s e) (entities hex_sortf cells hex_facets) [] in
+     let q' := slotv (nth s hex_facets []) (nth e cells []) in
+     match q with [a; b; c; d] => existsb (nats_eqb q') [[a; b; c; d]; [b; c; d; a]; [c; d; a; b]; [d; a; b; c];
+                                                        [d; c; b; a]; [c; b; a; d]; [b; a; d; c]; [a; d; c; b]] | _ => false end)
+     (seq 0 2)) (seq 0 6) = true /\
+  length (entities true cells hex_facets) = 11.
+Proof. vm_compute. split; reflexivity. Qed.
+Print Assumptions C11_hex_conformity_instance.
 
 (* entity keys (Mesh._sort_entities): plain sorting for slot tuples without repeated vertices (every slot of every cell type on
    cells with distinct vertices, except the padded triangles of wedges); the key of a padded triangle depends only on its vertex
